@@ -43,7 +43,7 @@ def tag_model(src, r):
         if a['val'] is not None:
             push(ranges, (a['ns'], a['ve']))
             push(ranges, tuple(a['inner']))
-            if a['name'] == 'class':
+            if a['name'].lower() == 'class':
                 for t in gen_html.class_tokens(src, a):
                     push(ranges, t)
         else:
